@@ -2,7 +2,8 @@
    are mapped to OCaml's; nat, N, positive, Z remain Coq's inductives.  No Extract Constant. *)
 Require Extraction.
 Require Import ExtrOcamlBasic.
-Require Import SV.Base.BT SV.Simp.Core SV.Layout.Ty SV.Layout.Value.
+Require Import SV.Base.BT SV.Base.Res SV.Simp.Core SV.Layout.Ty SV.Layout.Value SV.Lang.Ast SV.Comp.Compile.
 Extraction Language OCaml.
 Extraction "model.ml"
-  struct_ty structural reconstruct type_of value_wf cast_ok ty_eqb sty_eqb sval_eqb vty.
+  struct_ty structural reconstruct type_of value_wf cast_ok ty_eqb sty_eqb sval_eqb vty
+  compile_program eval.
